@@ -154,10 +154,11 @@ def _is_mutable_literal(node):
 
 
 class _Scan(ast.NodeVisitor):
-    def __init__(self, fname, tree, setdict_keys=frozenset()):
+    def __init__(self, fname, tree, setdict_keys=frozenset(), global_sets=frozenset()):
         self.fname = fname
         self.tree = tree
         self.setdict_keys = setdict_keys
+        self.global_sets = global_sets  # `self.X` attributes bound to sets anywhere in the scanned files
         self.entries = []  # (cat, func, stmt)
         self.scope = []  # qualified name parts
         self.stmt_stack = []
@@ -172,7 +173,8 @@ class _Scan(ast.NodeVisitor):
         self.class_mutables = set()
         self._collect_globals()
         # set-typed names per function scope (collected lazily)
-        self.setnames_stack = [self._collect_setnames(tree, module=True)]
+        self.setnames_stack = [set(self.global_sets)]
+        self.setnames_stack = [set(self.global_sets) | self._collect_setnames(tree, module=True)]
         self.default_mutables_stack = [set()]
         self.global_decl_stack = [set()]
 
@@ -509,6 +511,17 @@ def _mentions_key(node, keys):
     return bool(keys) and any(isinstance(n, ast.Constant) and isinstance(n.value, str) and n.value in keys for n in ast.walk(node))
 
 
+def global_set_attrs(tree):
+    """`self.X` keys that some method binds to a set object (subclasses in other files use them too)."""
+    out = set()
+    for node in ast.walk(tree):
+        for tgt, val in _assign_pairs(node):
+            k = _ref_key(tgt)
+            if k and k.startswith("self.") and _is_set_expr(val, set()):
+                out.add(k)
+    return out
+
+
 def setdict_keys_of(tree):
     """String keys K such that some function does  D = <expr mentioning "K">  and  D[k] = <set>."""
     keys = set()
@@ -571,7 +584,7 @@ def _utils_referenced(base, files):
     return names
 
 
-def scan_file(base, rel, only_functions=None, setdict_keys=frozenset()):
+def scan_file(base, rel, only_functions=None, setdict_keys=frozenset(), global_sets=frozenset()):
     src = open(os.path.join(base, rel)).read()
     tree = ast.parse(src)
     if only_functions is not None:
@@ -585,7 +598,7 @@ def scan_file(base, rel, only_functions=None, setdict_keys=frozenset()):
             elif isinstance(node, (ast.Assign, ast.AnnAssign)):
                 keep.append(node)
         tree = ast.Module(body=keep, type_ignores=[])
-    sc = _Scan(rel, tree, setdict_keys)
+    sc = _Scan(rel, tree, setdict_keys, global_sets)
     sc.visit(tree)
     return [(cat, rel, func, stmt) for cat, func, stmt in sc.entries]
 
@@ -593,15 +606,17 @@ def scan_file(base, rel, only_functions=None, setdict_keys=frozenset()):
 def census(repo):
     base, files = repo_files(repo)
     entries = []
-    keys = set()
+    keys, gsets = set(), set()
     for rel in files:
-        keys |= setdict_keys_of(ast.parse(open(os.path.join(base, rel)).read()))
-    keys = frozenset(keys)
+        t = ast.parse(open(os.path.join(base, rel)).read())
+        keys |= setdict_keys_of(t)
+        gsets |= global_set_attrs(t)
+    keys, gsets = frozenset(keys), frozenset(gsets)
     for rel in files:
-        entries += scan_file(base, rel, setdict_keys=keys)
+        entries += scan_file(base, rel, setdict_keys=keys, global_sets=gsets)
     if os.path.exists(os.path.join(base, "utils.py")):
         ref = _utils_referenced(base, files)
-        ents = scan_file(base, "utils.py", only_functions=ref, setdict_keys=keys)
+        ents = scan_file(base, "utils.py", only_functions=ref, setdict_keys=keys, global_sets=gsets)
         # from utils.py keep only what lives inside the referenced functions/classes, plus watched imports
         entries += [e for e in ents if e[2] != "<module>" or e[0] == "watched-import"]
     # de-duplicate recordings of the very same node under one category, keep multiplicity otherwise
